@@ -130,6 +130,7 @@ func DriverMain(prop, tier, verifDir string) int {
 	if os.Getenv("VERIF_KEEP") == "" {
 		defer os.RemoveAll(runDir)
 	}
+	runDirEnv = runDir
 	nshards := e.Shards
 	if nshards == 0 {
 		nshards = runtime.NumCPU()
@@ -350,6 +351,8 @@ func trunc(v any) string {
 	return s
 }
 
+var runDirEnv string
+
 func runProc(bin string, args []string, godebug, errFile string, limit time.Duration) (rc int, timedOut bool) {
 	cmd := exec.Command(bin, args...)
 	env := []string{}
@@ -359,6 +362,9 @@ func runProc(bin string, args []string, godebug, errFile string, limit time.Dura
 		}
 	}
 	env = append(env, "GODEBUG="+godebug)
+	if runDirEnv != "" {
+		env = append(env, "VERIF_RUNDIR="+runDirEnv)
+	}
 	cmd.Env = env
 	ef, err := os.Create(errFile)
 	if err != nil {
